@@ -115,7 +115,7 @@ proof fn lemma_seq_zero_prefix<T: MaxSizeOf>(s: Seq<u8>, pos: nat, k: nat)
 
 //@item epserde/src/impls/vec.rs props=C01,C02 name=Vec::DeserializeHelper<Zero> <<impl<T: ZeroCopy + DeserializeInner> DeserializeHelper<Zero> for Vec<T> {>>
 //@  replace <<deser::Result>> <<Result>>
-//@  replace <<deserialize_full_vec_zero(backend)>> <<deserialize_full_vec_zero::<T, _>(backend)>>
+//@  replace_opt <<deserialize_full_vec_zero::<T>>> <<deserialize_full_vec_zero::<T, _>>>
 //@  body_prefix
 //@|    open spec fn parse_impl(s: Seq<u8>, pos: nat) -> PR<Vec<T>> { pr_map(parse_seq_zero::<T>(s, pos), |vs: Seq<T>| vec_of(vs)) }
 //@|    open spec fn eps_rel_impl<'a>(d: &'a [T], v: Vec<T>) -> bool { d@ == v@ }
@@ -132,7 +132,7 @@ proof fn lemma_seq_zero_prefix<T: MaxSizeOf>(s: Seq<u8>, pos: nat, k: nat)
 
 //@item epserde/src/impls/vec.rs props=C01,C02,C11 name=Vec::DeserializeHelper<Deep> <<impl<T: DeepCopy + DeserializeInner> DeserializeHelper<Deep> for Vec<T> {>>
 //@  replace <<deser::Result>> <<Result>>
-//@  replace <<deserialize_full_vec_deep::<T>>> <<deserialize_full_vec_deep::<T, _>>>
+//@  replace_opt <<deserialize_full_vec_deep::<T>>> <<deserialize_full_vec_deep::<T, _>>>
 //@  body_prefix
 //@|    open spec fn parse_impl(s: Seq<u8>, pos: nat) -> PR<Vec<T>> { pr_map(parse_seq_deep::<T>(s, pos), |vs: Seq<T>| vec_of(vs)) }
 //@|    open spec fn eps_rel_impl<'a>(d: Vec<<T as DeserializeInner>::DeserType<'a>>, v: Vec<T>) -> bool { eps_rel_seq::<T>(d@, v@) }
@@ -182,7 +182,7 @@ pub assume_specification<T, A: Allocator>[ Vec::<T, A>::into_boxed_slice ](v: Ve
 
 //@item epserde/src/impls/boxed_slice.rs props=C01,C02 name=BoxSlice::DeserializeHelper<Zero> <<impl<T: ZeroCopy + DeserializeInner> DeserializeHelper<Zero> for Box<[T]> {>>
 //@  replace <<deser::Result>> <<Result>>
-//@  replace <<deserialize_full_vec_zero::<T>>> <<deserialize_full_vec_zero::<T, _>>>
+//@  replace_opt <<deserialize_full_vec_zero::<T>>> <<deserialize_full_vec_zero::<T, _>>>
 //@  body_prefix
 //@|    open spec fn parse_impl(s: Seq<u8>, pos: nat) -> PR<Box<[T]>> { pr_map(parse_seq_zero::<T>(s, pos), |vs: Seq<T>| box_of(vs)) }
 //@|    open spec fn eps_rel_impl<'a>(d: &'a [T], v: Box<[T]>) -> bool { d@ == v@ }
@@ -199,7 +199,7 @@ pub assume_specification<T, A: Allocator>[ Vec::<T, A>::into_boxed_slice ](v: Ve
 
 //@item epserde/src/impls/boxed_slice.rs props=C01,C02,C11 name=BoxSlice::DeserializeHelper<Deep> <<impl<T: DeepCopy + DeserializeInner> DeserializeHelper<Deep> for Box<[T]> {>>
 //@  replace <<deser::Result>> <<Result>>
-//@  replace <<deserialize_full_vec_deep(backend)>> <<deserialize_full_vec_deep::<T, _>(backend)>>
+//@  replace_opt <<deserialize_full_vec_deep::<T>>> <<deserialize_full_vec_deep::<T, _>>>
 //@  body_prefix
 //@|    open spec fn parse_impl(s: Seq<u8>, pos: nat) -> PR<Box<[T]>> { pr_map(parse_seq_deep::<T>(s, pos), |vs: Seq<T>| box_of(vs)) }
 //@|    open spec fn eps_rel_impl<'a>(d: Box<[<T as DeserializeInner>::DeserType<'a>]>, v: Box<[T]>) -> bool { eps_rel_seq::<T>(d@, v@) }
@@ -235,10 +235,22 @@ pub uninterp spec fn str_bytes(s: String) -> Seq<u8>;
 pub axiom fn axiom_str_bytes()
     ensures forall|s: String| string_of(#[trigger] str_bytes(s)) == s && str_bytes(s).len() <= usize::MAX;
 
+/// `String::from_utf8(v)`: recorded replacement of the constructor path by an assumed
+/// function whose result type has its own `unwrap` - vstd's `Result::unwrap` demands a
+/// proof that the result is `Ok`, which would make "panics on invalid UTF-8" unprovable
+pub struct Utf8R { pub r: core::result::Result<String, ()> }
+pub uninterp spec fn utf8r_bytes(x: Utf8R) -> Seq<u8>;
 #[verifier::external_body]
-pub fn assumed_from_utf8_unwrap(v: Vec<u8>) -> (r: String)
-    ensures r == string_of(v@),
+pub fn assumed_from_utf8(v: Vec<u8>) -> (r: Utf8R)
+    ensures utf8r_bytes(r) == v@,
 { unimplemented!() }
+impl Utf8R {
+    /// returns the string of the bytes, or does not return (panic)
+    #[verifier::external_body]
+    pub fn unwrap(self) -> (r: String)
+        ensures r == string_of(utf8r_bytes(self)),
+    { unimplemented!() }
+}
 
 /// the macro-generated impls of u8 (impls/prim.rs), as V-TYPEINFO verifies them from the
 /// compiler's expansion: copy kind Zero, unit 1
@@ -256,8 +268,8 @@ pub axiom fn axiom_image_u8()
 
 //@item epserde/src/impls/string.rs props=C01,C02,C11 name=String::DeserializeInner <<impl DeserializeInner for String {>>
 //@  replace <<deser::Result>> <<Result>>
-//@  replace <<String::from_utf8(slice).unwrap()>> <<assumed_from_utf8_unwrap(slice)>>
-//@  replace <<deserialize_full_vec_zero(backend)>> <<deserialize_full_vec_zero::<u8, _>(backend)>>
+//@  replace <<String::from_utf8>> <<assumed_from_utf8>>
+//@  replace_opt <<deserialize_full_vec_zero::<u8>>> <<deserialize_full_vec_zero::<u8, _>>>
 //@  body_prefix
 //@|    open spec fn parse(s: Seq<u8>, pos: nat) -> PR<Self> { pr_map(parse_seq_zero::<u8>(s, pos), |b: Seq<u8>| string_of(b)) }
 //@|    open spec fn eps_rel<'a>(d: &'a str, v: Self) -> bool { d@ == v@ }
